@@ -1386,7 +1386,7 @@ func (g *gen) pickKnobs() Knobs {
 		k.CacheOnly = true
 	}
 	if g.r.Chance(0.2) {
-		k.BiasKey = []uint32{200, 250, 65500, 65530, 16777190, 1<<31 - 40, 1 << 20}[g.r.Intn(7)]
+		k.BiasKey = []uint32{200, 250, 65500, 65530, 16777190, 1<<31 - 40, 1 << 20, 1<<32 - 30, 1<<32 - 3}[g.r.Intn(9)]
 	}
 	if g.r.Chance(0.2) {
 		k.BiasLSN = []uint64{230, 65500, 65530, 16777190, 1<<32 - 60, 1<<32 - 5, 1 << 40, 1<<31 - 30}[g.r.Intn(8)]
